@@ -786,6 +786,36 @@ def check_lossless(prog: Program, res: Result) -> None:
                 res.ob(R, not w, vf.qualname, f"{callee.name}() leaves the configuration untouched",
                        f"verify_training_cfg passes the configuration to {callee.qualname}, which rewrites it (`{w[0] if w else ''}`): values supplied by the caller are "
                        "changed by normalisation (not lossless, not idempotent on the input)", f"{vf.module.relpath}:{c.lineno}")
+    # the other producer of a training configuration, TrainingJobConfig.to_sleap_nn_cfg, hands back OmegaConf.structured(self)
+    # and passes it to nothing that stores into it
+    tj = prog.cls("sleap_nn.config.training_job_config:TrainingJobConfig").methods.get("to_sleap_nn_cfg")
+    if tj is None:
+        raise AnalysisError("TrainingJobConfig.to_sleap_nn_cfg vanished")
+    res.touch(tj)
+    made = [norm(s_.targets[0]) for s_ in walk_function(tj.node) if isinstance(s_, ast.Assign) and isinstance(s_.value, ast.Call) and norm(s_.value.func).endswith("OmegaConf.structured")
+            and isinstance(s_.targets[0], ast.Name)]
+    direct = [r_ for r_ in walk_function(tj.node) if isinstance(r_, ast.Return) and isinstance(r_.value, ast.Call) and norm(r_.value.func).endswith("OmegaConf.structured")]
+    res.ob(R, len(made) + len(direct) == 1, tj.qualname, "one structured configuration is built", f"{len(made) + len(direct)} OmegaConf.structured results", tj.where)
+    w_ = [x for m_ in made for x in _writes_arg(tj, m_)]
+    for c in walk_function(tj.node):
+        if not isinstance(c, ast.Call):
+            continue
+        q = prog.resolve_call(tj, c)
+        callee = prog.functions.get(q) if q else None
+        if callee is None and isinstance(c.func, ast.Attribute) and norm(c.func.value) in ("self", "cls"):
+            callee = prog.lookup_method(tj.cls, c.func.attr)
+        if callee is None:
+            continue
+        decos = [d_.id for d_ in callee.node.decorator_list if isinstance(d_, ast.Name)]
+        b = astq.bind_args(callee, c, skip_self=(callee.cls is not None and "staticmethod" not in decos))
+        for prm, a in b.items():
+            if isinstance(a, ast.Name) and a.id in made:
+                w_ += [f"{callee.name}: {x}" for x in _writes_arg(callee, prm)]
+    res.ob(R, not w_, tj.qualname, "to_sleap_nn_cfg stores nothing into the configuration it returns",
+           f"to_sleap_nn_cfg rewrites values of the configuration it was built from (`{w_[0] if w_ else ''}`): the caller's backbone/head settings are changed on the way out", tj.where)
+    rets_t = [n for n in walk_function(tj.node) if isinstance(n, ast.Return) and n.value is not None]
+    res.ob(R, all((isinstance(r_.value, ast.Name) and r_.value.id in made) or r_ in direct for r_ in rets_t) and bool(rets_t), tj.qualname, "the structured configuration itself is returned",
+           f"to_sleap_nn_cfg returns `{short(rets_t[0].value, 50) if rets_t else '?'}`, not the structured configuration itself", tj.where)
     rets = [n for n in walk_function(vf.node) if isinstance(n, ast.Return) and n.value is not None]
     res.ob(R, len(rets) == 1 and norm(rets[0].value) in merged, vf.qualname, "the merged configuration is what is returned",
            f"verify_training_cfg returns `{short(rets[0].value, 50) if rets else '?'}`, not the merge result itself", vf.where)
@@ -812,6 +842,35 @@ def check_lossless(prog: Program, res: Result) -> None:
                 res.ob(R, False, fi.qualname, f"every entry of `{nm}` is considered",
                        f"`{short(c, 60)}` looks only at the FIRST entry of the caller's `{nm}` dict: parameters supplied under another key (e.g. a YAML-style dict whose first "
                        "key is None) are silently dropped", f"{fi.module.relpath}:{c.lineno}")
+        # a loop over the entries of a dict argument leaves early only AFTER it has used an entry: a `break` reached without a
+        # store on the way (e.g. on a None value) ends the scan and drops every later entry
+        from ..core.cfg import CFG
+        cfg = None
+        for lp in walk_function(fi.node):
+            if not isinstance(lp, ast.For):
+                continue
+            itb = astq.peel(lp.iter, "items", "keys", "values")
+            nm = itb.id if isinstance(itb, ast.Name) else astq.attr_base(itb)
+            if nm not in fi.pos_params:
+                continue
+            brks = [b for st in lp.body for b in ast.walk(st) if isinstance(b, ast.Break) and astq.enclosing_loops(b)[0] is lp]
+            if not brks:
+                continue
+            cfg = cfg or CFG(fi.node)
+            heads = cfg.nodes_of(lp)
+            enter = [m for h in heads for m in cfg.g.successors(h) if "true" in cfg.g[h][m]["labels"]]
+            stores = set()
+            for st in ast.walk(lp):
+                if isinstance(st, ast.Assign) and any(isinstance(t, (ast.Attribute, ast.Subscript)) for t in st.targets):
+                    stores |= set(cfg.nodes_of(st))
+                elif isinstance(st, ast.Expr) and isinstance(st.value, ast.Call) and norm(st.value.func) == "setattr":
+                    stores |= set(cfg.nodes_of(st))
+            for b in brks:
+                res.touch(fi)
+                w = cfg.must_pass(enter, cfg.nodes_of(b), stores, drop_edge=lambda a_, b_, labels: "exc" in labels)
+                res.ob(R, w is None, fi.qualname, f"the scan of `{nm}` stops only after an entry was used",
+                       f"the loop over the caller's `{nm}` can `break` without having stored anything ({cfg.path_str(w) if w else ''}): an entry that is merely skipped "
+                       "(e.g. a None value) ends the scan and the entries after it are silently dropped", f"{fi.module.relpath}:{b.lineno}")
     res.count(R, n_b)
     res.floor(R, 8)
 
